@@ -209,10 +209,19 @@ func NewResponder(o *Origin, path string, parties *OCSPParties, a OCSPAnswer) *R
 	return r
 }
 
-// UntrustedTLSURL starts an HTTPS server with a certificate nobody trusts and returns its URL and a closer.
+var (
+	tlsOnce sync.Once
+	tlsURL  string
+)
+
+// UntrustedTLSURL returns the URL of a process-wide HTTPS server with a certificate nobody trusts (the client's
+// TLS handshake fails) and a no-op closer.
 func UntrustedTLSURL() (string, func()) {
-	s := httptest.NewTLSServer(http.HandlerFunc(func(w http.ResponseWriter, r *http.Request) { w.WriteHeader(200) }))
-	return s.URL + "/ocsp", s.Close
+	tlsOnce.Do(func() {
+		s := httptest.NewTLSServer(http.HandlerFunc(func(w http.ResponseWriter, r *http.Request) { w.WriteHeader(200) }))
+		tlsURL = s.URL + "/ocsp"
+	})
+	return tlsURL, func() {}
 }
 
 // OCSPOpts configures an OCSP checker.
